@@ -29,13 +29,13 @@ theorem renderFeature_genJ (K : Consts) (ts : TypeSystem) (cass : List Cas) (c :
   rw [hv, Option.getD_some]
   rw [renderFeature_eq]
   have hx : (f.name == "xmiID" || f.name == "type") = false := by simp [hn1, hn2]
-  rw [hx, hres]
-  simp only [Bool.false_eq_true, if_false, hs, hv, Option.getD_some]
+  rw [hx]
+  simp only [Bool.false_eq_true, if_false, hs, hv, Option.getD_some, xmlName_def]
   -- first stage
-  have hst1 : ∀ (w : Val), (∀ i, w ≠ .int i) → stage1 cass H a f f.name w = .ok w := by
+  have hst1 : ∀ (w : Val), (∀ i, w ≠ .int i) → stage1 cass H a f (xmlName f) w = .ok w := by
     intro w hw
     unfold stage1
-    rw [hcond]
+    rw [xmlName_begin f hres, xmlName_end f hres, hcond]
     by_cases hA : (isAnn && (f.name == "begin" || f.name == "end")) = true
     · have hia : isAnn = true := by
         rw [Bool.and_eq_true] at hA; exact hA.1
@@ -48,10 +48,10 @@ theorem renderFeature_genJ (K : Consts) (ts : TypeSystem) (cass : List Cas) (c :
       dsimp only
       cases w <;> first | rfl | exact absurd rfl (hw _)
     · rw [if_neg hA]; rfl
-  have hst1i : ∀ (i : Int), stage1 cass H a f f.name (.int i) = .ok (.int (extInt cass isAnn o f.name i)) := by
+  have hst1i : ∀ (i : Int), stage1 cass H a f (xmlName f) (.int i) = .ok (.int (extInt cass isAnn o (xmlName f) i)) := by
     intro i
     unfold stage1 extInt
-    rw [hcond]
+    rw [xmlName_begin f hres, xmlName_end f hres, hcond]
     by_cases hA : (isAnn && (f.name == "begin" || f.name == "end")) = true
     · have hia : isAnn = true := by
         rw [Bool.and_eq_true] at hA; exact hA.1
@@ -68,7 +68,7 @@ theorem renderFeature_genJ (K : Consts) (ts : TypeSystem) (cass : List Cas) (c :
     · obtain ⟨r1, r2, r3⟩ := hsr hn (by rw [hv]; simp)
       have hne : ¬ ((Val.sofa ci vn == Val.none) = true) := by simp
       rw [if_neg hne, hst1 _ (by intro i h; cases h)]
-      show stage2 K ts cass H f f.name (Val.sofa ci vn) = _
+      show stage2 K ts cass H f (xmlName f) (Val.sofa ci vn) = _
       unfold stage2 jmem
       have e1 : (f.range == "uima.cas.Double" || f.range == "uima.cas.Float") = false := by simp [r1, r2]
       rw [e1, r3]
@@ -87,28 +87,28 @@ theorem renderFeature_genJ (K : Consts) (ts : TypeSystem) (cass : List Cas) (c :
         rcases hr with ((h | h) | h) | h <;> rw [h] <;> decide
       have hne : ¬ ((Val.int i == Val.none) = true) := by simp
       rw [if_neg hne, hst1i]
-      show stage2 K ts cass H f f.name (Val.int _) = _
+      show stage2 K ts cass H f (xmlName f) (Val.int _) = _
       unfold stage2 jmem
       have e1 : (f.range == "uima.cas.Double" || f.range == "uima.cas.Float") = false := by simp [hb.1, hb.2]
       rw [e1, hprim]
       rfl
     · have hne : ¬ ((Val.str x == Val.none) = true) := by simp
       rw [if_neg hne, hst1 _ (by intro i h; cases h)]
-      show stage2 K ts cass H f f.name (Val.str x) = _
+      show stage2 K ts cass H f (xmlName f) (Val.str x) = _
       unfold stage2 jmem
       have e1 : (f.range == "uima.cas.Double" || f.range == "uima.cas.Float") = false := by rw [hr]; decide
       rw [e1, hprim]
       rfl
     · have hne : ¬ ((Val.bool x == Val.none) = true) := by simp
       rw [if_neg hne, hst1 _ (by intro i h; cases h)]
-      show stage2 K ts cass H f f.name (Val.bool x) = _
+      show stage2 K ts cass H f (xmlName f) (Val.bool x) = _
       unfold stage2 jmem
       have e1 : (f.range == "uima.cas.Double" || f.range == "uima.cas.Float") = false := by rw [hr]; decide
       rw [e1, hprim]
       rfl
     · have hne : ¬ ((Val.float t == Val.none) = true) := by simp
       rw [if_neg hne, hst1 _ (by intro i h; cases h)]
-      show stage2 K ts cass H f f.name (Val.float t) = _
+      show stage2 K ts cass H f (xmlName f) (Val.float t) = _
       unfold stage2 jmem
       have e1 : (f.range == "uima.cas.Double" || f.range == "uima.cas.Float") = true := by
         rcases hr with h | h <;> rw [h] <;> decide
@@ -120,7 +120,7 @@ theorem renderFeature_genJ (K : Consts) (ts : TypeSystem) (cass : List Cas) (c :
     · have hsome := hcl b hv
       have hne : ¬ ((Val.ref b == Val.none) = true) := by simp
       rw [if_neg hne, hst1 _ (by intro i h; cases h)]
-      show stage2 K ts cass H f f.name (Val.ref b) = _
+      show stage2 K ts cass H f (xmlName f) (Val.ref b) = _
       unfold stage2 jmem
       have e1 : (f.range == "uima.cas.Double" || f.range == "uima.cas.Float") = false := by simp [hnd, hnf]
       rw [e1, hprim]
